@@ -278,6 +278,25 @@ def run_history(pd, hook, sc, tid, chk, facts, lines, meta, nupd=None, salt=0):
     kw = {} if o0 is None else dict(orientations_init=o0, fractions_init=f0)
     m = pd.Mineral(phase=sc["phase"], fabric=sc["fabric"], regime=int(pd.DeformationRegime.matrix_dislocation), n_grains=n, seed=seed, **kw)
     getL, getx = layerb.flow_callables(sc["fl"])
+    nested = None
+    if tid % 4 == 2:
+        # nested client: at its first evaluation in every update (before the library starts its solver) the velocity-
+        # gradient callable advances ANOTHER mineral of the same grain count by an update of its own - "the orientation
+        # it had at the start of that update" is the outer mineral's, whatever else the client does with the library
+        from harness import chatter
+
+        inner = chatter.nested_mineral_update(n, k=tid)
+
+        def paused_inner():
+            keep = hook.slot
+            hook.slot = dict(last=None, calls=0)      # the nested update's sliding calls are not the judged mineral's
+            try:
+                inner()
+            finally:
+                hook.slot = keep
+
+        nested = chatter.NestedClient(getL, paused_inner)
+        getL = nested
     F, t = np.eye(3), 0.0
     prev_below = None
     crossed = False
@@ -311,6 +330,8 @@ def run_history(pd, hook, sc, tid, chk, facts, lines, meta, nupd=None, salt=0):
             break
         nsnap = len(m.orientations)
         hook.reset()
+        if nested is not None:
+            nested.arm()
         try:
             Fn = m.update_orientations(step_params, F, getL, (t, t + dt, getx))
         except Exception as ex:  # noqa: BLE001 - rejected / failed updates belong to C07 / C01
@@ -328,6 +349,9 @@ def run_history(pd, hook, sc, tid, chk, facts, lines, meta, nupd=None, salt=0):
         else:
             chk.skip("returned-deformation-gradient-unusable (C06's clause): the history goes on from the gradient handed in")
         t += dt
+        if nested is not None:
+            facts["nested_client_calls_run"] = facts.get("nested_client_calls_run", 0) + (1 if nested.count >= 1 and nested.ran else 0)
+            facts["nested_client_calls_raised"] = nested.raised
         if len(m.orientations) != nsnap + 1 or len(m.fractions) != nsnap + 1:
             chk.skip("update-did-not-append-one-snapshot")  # C01's clause
             break
